@@ -1216,6 +1216,193 @@ example : InTree demoTree (inCol demoCol (demoCol.wall 0)) (demoCol.wall 0) :=
 example : Inv demoTree (demoCol.wall 0) false none none ({ declared := ["zcurr"] } : St) :=
   { abs := rfl, decl := (by decide), ldd := fun h => (by cases h), posz := fun z h => (by cases h), val := fun z h => (by cases h) }
 
+/-! ### the floor part of a block: the floor is cut where the wall loop ends -/
+
+/-- invariant for the floor part of a block: absolute mode, (once loaded) the floor program loaded and bound to its x / y-only
+leaf file, the stage at depth `z` -/
+structure InvF (t : Tree) (p : String) (ld : Bool) (z : Rat) (σ : St) : Prop where
+  abs : σ.absMode = true
+  ldd : ld = true → σ.loaded.contains (progKey p) = true ∧
+    ∃ id body, lookupBound σ.bound (progKey p) = some id ∧ t.find id = some body ∧ progKey id = progKey p ∧ isLeafXY body = true
+  posz : σ.pos.z = some z
+
+theorem invF_of_ready {t : Tree} {pw pf : String} {z : Rat} {σ : St} (h : Ready t pw z σ) : InvF t pf false z σ :=
+  ⟨h.abs, fun h' => (by cases h'), h.posz⟩
+
+theorem calmF_step (t : Tree) (fuel : Nat) (p : String) (ld : Bool) (z : Rat) (σ : St) (i : Instr) (hc : calm i = true)
+    (h : InvF t p ld z σ) : InvF t p ld z (stepT t fuel σ i).1 := by
+  rw [stepT_flat t fuel σ i (by intro q hq; subst hq; simp [calm] at hc) (by intro k q hq; subst hq; simp [calm] at hc)]
+  cases i with
+  | g1 w =>
+    simp only [calm, Bool.and_eq_true, Option.isNone_iff_eq_none] at hc
+    obtain ⟨⟨⟨hx, hy⟩, hz⟩, hzv⟩ := hc
+    refine ⟨h.abs, h.ldd, ?_⟩
+    simp only [stepFlat, step, zTarget, hzv, hz, hx, hy, axisTarget_none]
+    exact h.posz
+  | blank => exact ⟨h.abs, h.ldd, h.posz⟩
+  | comment _ => exact ⟨h.abs, h.ldd, h.posz⟩
+  | msg => exact ⟨h.abs, h.ldd, h.posz⟩
+  | pso _ _ => exact ⟨h.abs, h.ldd, h.posz⟩
+  | dwell _ => exact ⟨h.abs, h.ldd, h.posz⟩
+  | _ => simp [calm] at hc
+
+theorem calmF_emit (t : Tree) (fuel : Nat) (p : String) (ld : Bool) (z : Rat) (is : List Instr)
+    (hc : ∀ i ∈ is, calm i = true) : ∀ σ, InvF t p ld z σ → InvF t p ld z (execStmtsG (stepT t fuel) (emit is) σ).1 := by
+  induction is with
+  | nil => intro σ h; simpa [emit, execStmtsG] using h
+  | cons i is ih =>
+    intro σ h
+    simp only [emit, List.map_cons, execStmtsG, execStmtG]
+    exact ih (fun j hj => hc j (by simp [hj])) _ (calmF_step t fuel p ld z σ i (hc i (by simp)) h)
+
+theorem semF_calm {t : Tree} {fuel : Nat} {p : String} {ld : Bool} {z : Rat} (f : CS → Res)
+    (h : ∀ cs, ∃ is, (f cs).out = emit is ∧ ∀ i ∈ is, calm i = true) :
+    Sem t fuel (InvF t p ld z) (InvF t p ld z) f := by
+  intro cs _ σ hP
+  obtain ⟨is, he, hc⟩ := h cs
+  rw [he]
+  exact calmF_emit t fuel p ld z is hc σ hP
+
+theorem semF_msg {t : Tree} {fuel : Nat} {p : String} {ld : Bool} {z : Rat} :
+    Sem t fuel (InvF t p ld z) (InvF t p ld z) (instrR [.msg]) :=
+  semF_calm _ (fun cs => ⟨[.msg], rfl, by intro i hi; simp at hi; subst hi; rfl⟩)
+
+theorem semF_shutter {t : Tree} {fuel : Nat} {p : String} {ld : Bool} {z : Rat} (cfg : Cfg) (on : Bool) :
+    Sem t fuel (InvF t p ld z) (InvF t p ld z) (shutterR cfg on) :=
+  semF_calm _ (fun cs => by
+    unfold shutterR shutter
+    split
+    · exact ⟨[.pso cfg.psoAxis true], rfl, by intro i hi; simp at hi; subst hi; rfl⟩
+    · split
+      · exact ⟨[.pso cfg.psoAxis false], rfl, by intro i hi; simp at hi; subst hi; rfl⟩
+      · exact ⟨[], rfl, by intro i hi; simp at hi⟩)
+
+theorem semF_dwell {t : Tree} {fuel : Nat} {p : String} {ld : Bool} {z : Rat} (q : Option Rat) :
+    Sem t fuel (InvF t p ld z) (InvF t p ld z) (dwellR q) :=
+  semF_calm _ (fun cs => by
+    unfold dwellR dwell
+    cases q with
+    | none => exact ⟨[], rfl, by intro i hi; simp at hi⟩
+    | some v =>
+      by_cases h0 : v = 0
+      · simp only [h0, if_true]; exact ⟨[], rfl, by intro i hi; simp at hi⟩
+      · simp only [h0, if_false]; exact ⟨[.dwell (rabs v)], rfl, by intro i hi; simp at hi; subst hi; rfl⟩)
+
+theorem semF_uMove {t : Tree} {fuel : Nat} {p : String} {ld : Bool} {z : Rat} (cfg : Cfg) (u : Option Rat) (pause : Bool) :
+    Sem t fuel (InvF t p ld z) (InvF t p ld z) (uMove cfg u pause) := by
+  unfold uMove
+  cases u with
+  | none => intro cs _ σ hP; simpa [execStmtsG] using hP
+  | some v =>
+    have hg : Sem t fuel (InvF t p ld z) (InvF t p ld z) (instrR [g1U v]) :=
+      semF_calm _ (fun cs => ⟨[g1U v], rfl, by intro i hi; simp at hi; subst hi; simp [g1U, calm]⟩)
+    cases pause
+    · simpa using hg
+    · simpa using Sem.andThen hg (semF_dwell cfg.longPause)
+
+/-- `REMOVEPROGRAM` (with the `PROGRAM STOP` / `WAIT` lines before it) does not move the stage -/
+theorem semF_remove {t : Tree} {fuel : Nat} {p : String} {ld : Bool} {z : Rat} (name : String) (task : Nat) :
+    Sem t fuel (InvF t p ld z) (InvF t p false z) (removeOp name task) := by
+  intro cs herr σ hP
+  have hdrop : InvF t p false z σ := ⟨hP.abs, fun h' => (by cases h'), hP.posz⟩
+  unfold removeOp at herr ⊢
+  split
+  · simpa [execStmtsG] using hdrop
+  · split
+    · simpa [execStmtsG] using hdrop
+    · simp only [emit, List.map_cons, List.map_nil, execStmtsG, execStmtG]
+      rw [stepT_flat t fuel σ _ (by intro q hq; cases hq) (by intro k q hq; cases hq)]
+      rw [stepT_flat t fuel _ _ (by intro q hq; cases hq) (by intro k q hq; cases hq)]
+      rw [stepT_flat t fuel _ _ (by intro q hq; cases hq) (by intro k q hq; cases hq)]
+      simp only [stepFlat, step]
+      by_cases hc : σ.loaded.contains (progKey (posixName name)) = true
+      · simp only [hc, if_true]; exact ⟨hP.abs, fun h' => (by cases h'), hP.posz⟩
+      · simp only [hc]; exact ⟨hP.abs, fun h' => (by cases h'), hP.posz⟩
+
+theorem semF_load {t : Tree} {f : Nat} {p path : String} {z : Rat} (hin : InTree t path p) :
+    Sem t (f + 1) (InvF t p false z) (InvF t p true z) (loadOp path 2) := by
+  intro cs herr σ hP
+  unfold loadOp at herr ⊢
+  split
+  · rename_i h; simp [h] at herr
+  · obtain ⟨hk, id, body, hres, hfind, hkey, hleaf⟩ := hin
+    simp only [emit, List.map_cons, List.map_nil, execStmtsG, execStmtG, stepT, stepFlat, step, hres, hk]
+    refine ⟨hP.abs, ?_, hP.posz⟩
+    intro _
+    refine ⟨?_, id, body, ?_, hfind, hkey, hleaf⟩
+    · split <;> simp_all
+    · simp [lookupBound]
+
+/-- the call of a loaded, bound x / y-only program leaves mode, bindings and depth alone: the floor is cut at the depth the stage
+has when it is called -/
+theorem semF_farcall {t : Tree} {f : Nat} {p : String} {z : Rat} (cfg : Cfg) :
+    Sem t (f + 1) (InvF t p true z) (InvF t p true z) (farcallOp cfg p) := by
+  intro cs herr σ hP
+  unfold farcallOp at herr ⊢
+  split
+  · rename_i h; simp [h] at herr
+  · split
+    · simpa [execStmtsG] using hP
+    · simp only [Res.ofOut, seq]
+      rw [execStmtsG_append]
+      have h1 := semF_dwell (t := t) (fuel := f + 1) (p := p) (ld := true) (z := z) cfg.shortPause cs rfl σ hP
+      simp only [dwellR, Res.ofOut] at h1
+      set σ1 := (execStmtsG (stepT t (f + 1)) (dwell cfg.shortPause cs).1 σ).1
+      obtain ⟨hl, id, body, hb, hfind, hkey, hleaf⟩ := h1.ldd rfl
+      simp only [emit, List.map_cons, List.map_nil, execStmtsG, execStmtG, stepT, hl, if_true, hb, hfind, Option.bind_some,
+        Option.map_some, hkey]
+      have hfr := leafXY_frame (stepT t f) (fun σ w => stepT_flat t f σ _ (by intro q hq; cases hq) (by intro k q hq; cases hq))
+        (fun σ => stepT_flat t f σ _ (by intro q hq; cases hq) (by intro k q hq; cases hq)) body hleaf σ1
+      have e1 : (execStmtsG (stepT t f) body σ1).1.absMode = σ1.absMode := congrArg Frame.absMode hfr
+      have e2 : (execStmtsG (stepT t f) body σ1).1.loaded = σ1.loaded := congrArg Frame.loaded hfr
+      have e3 : (execStmtsG (stepT t f) body σ1).1.bound = σ1.bound := congrArg Frame.bound hfr
+      have e4 : (execStmtsG (stepT t f) body σ1).1.pos.z = σ1.pos.z := congrArg Frame.z hfr
+      exact ⟨by rw [e1]; exact h1.abs, fun _ => ⟨by rw [e2]; exact hl, id, body, by rw [e3]; exact hb, hfind, hkey, hleaf⟩,
+        by rw [e4]; exact h1.posz⟩
+
+
+/-- from the end of the wall loop to the floor call -/
+def floorPrefix (cfg : Cfg) (c : Col) (i : Nat) (cs : CS) : Res :=
+  (((((removeOp (c.wall i) 2 cs).andThen (shutterR cfg false)).andThen (loadOp (inCol c (c.floor i)) 2)).andThen
+    (instrR [.msg])).andThen (uMove cfg (c.u.map (·.2)) true)).andThen (shutterR cfg true)
+
+/-- **the floor is cut at the depth the wall loop ends at**: from the ready state after the wall loop (depth `z`) the floor
+prefix — unload the wall program, close, load the floor program, message, `G1 U`, open — brings the controller, without any
+change of depth, to the state in which the floor program is loaded and bound to its x / y-only leaf file -/
+theorem floorPrefix_at_depth {t : Tree} {f : Nat} (cfg : Cfg) (c : Col) (i : Nat) (z : Rat)
+    (hin : InTree t (inCol c (c.floor i)) (c.floor i)) :
+    Sem t (f + 1) (Ready t (c.wall i) z) (InvF t (c.floor i) true z) (floorPrefix cfg c i) := by
+  have h := Sem.andThen (Sem.andThen (Sem.andThen (Sem.andThen (Sem.andThen
+    (semF_remove (t := t) (fuel := f + 1) (p := c.floor i) (ld := false) (z := z) (c.wall i) 2)
+    (semF_shutter cfg false)) (semF_load (f := f) hin)) semF_msg) (semF_uMove cfg (c.u.map (·.2)) true)) (semF_shutter cfg true)
+  intro cs herr σ hP
+  exact h cs herr σ (invF_of_ready hP)
+
+/-- **a whole block, compiled and run.** For six-digit output, any column, level, trench and any tree holding x / y-only leaves for
+the wall and the floor of that trench under the loaded paths: whenever the block compiles, the tree controller started in absolute
+mode with `$ZCURR` declared traces the wall from `z₀` upwards in steps of `q` (`wallPart_depth`), calls the floor program at
+`z₀ + n_repeat · q` and ends the block at that depth with both programs unloaded-or-not-needed — no instruction of the block moves
+the stage in z except the `move_to` to `z₀` and the `G1 Z$ZCURR` of the wall loop. -/
+theorem trenchBlock_depths {t : Tree} {f : Nat} (cfg : Cfg) (c : Col) (nbox i : Nat) (xy : Rat × Rat) (hd : cfg.digits = 6)
+    (hw : InTree t (inCol c (c.wall i)) (c.wall i)) (hf : InTree t (inCol c (c.floor i)) (c.floor i)) :
+    Sem t (f + 1) (Inv t (c.wall i) false none none)
+      (InvF t (c.floor i) false (fmt 6 (transform cfg xy.1 xy.2 ((nbox : Rat) * c.hBox + c.zOff)).2.2 +
+        c.nRep.toNat * fmt 6 (c.deltaz / cfg.neff)))
+      (trenchBlock cfg c nbox i xy) := by
+  set zN := fmt 6 (transform cfg xy.1 xy.2 ((nbox : Rat) * c.hBox + c.zOff)).2.2 + c.nRep.toNat * fmt 6 (c.deltaz / cfg.neff) with hz
+  have h1 := wallPart_depth (t := t) (f := f) cfg c nbox i xy hd hw
+  rw [← hz] at h1
+  have hr : Sem t (f + 1) (Ready t (c.wall i) zN) (InvF t (c.floor i) false zN) (removeOp (c.wall i) 2) :=
+    fun cs herr σ hP => semF_remove (t := t) (fuel := f + 1) (p := c.floor i) (ld := false) (z := zN) (c.wall i) 2 cs herr σ (invF_of_ready hP)
+  have h := Sem.andThen (Sem.andThen (Sem.andThen (Sem.andThen (Sem.andThen (Sem.andThen (Sem.andThen (Sem.andThen h1 hr)
+    (semF_shutter cfg false)) (semF_load (f := f) hf)) semF_msg) (semF_uMove cfg (c.u.map (·.2)) true)) (semF_shutter cfg true))
+    (semF_farcall (f := f) cfg))
+    (Sem.andThen (Sem.andThen (semF_shutter (t := t) (fuel := f + 1) (p := c.floor i) (ld := true) (z := zN) cfg false)
+      (semF_uMove cfg (c.u.map (·.1)) false)) (semF_remove (c.floor i) 2))
+  intro cs herr σ hP
+  rw [trenchBlock_split] at herr ⊢
+  exact h cs herr σ hP
+
 /-! ### the leaf files (`export_array2d`) -/
 
 theorem leafLine_xy (cfg : Cfg) (xy : Rat × Rat) (f : Option Rat) (g9 : Bool) (i : Instr) (h : leafLine cfg xy f g9 = .ok i) :
